@@ -27,7 +27,7 @@ _TS = "XonshVerif.Model.TokenSource"
 THEOREMS = {
     "C01": _INERT + [("XV.Helpers.kw_defaults_length", _HELP), ("XV.Helpers.defaults_le_positional", _HELP), ("XV.Helpers.args_order", _HELP),
                      ("XV.Src.kept_no_trivia", _TS), ("XV.Src.kept_sublist", _TS), ("XV.Src.kept_keeps_significant", "XonshVerif.Proofs.TokenSourceKeep"), ("XV.Src.kept_no_double_newline", "XonshVerif.Proofs.TokenSourceKeep"), ("XV.Span.span_end_is_last_significant_token", "XonshVerif.Proofs.Span"), ("XV.Span.span_well_oriented", "XonshVerif.Properties.C04Span")],
-    "C07": [("XV.WithMacro.with_macro_lines_verbatim", "XonshVerif.Proofs.WithMacro"), ("XV.WithMacro.step_facts", "XonshVerif.Proofs.WithMacro"), ("XV.Macro.loop_partition", _PM), ("XV.Macro.param_is_concat", _PM), ("XV.Macro.concat_is_source_slice", _PM)],
+    "C07": [("XV.ProcMacro.proc_macro_arg_is_stripped_source", "XonshVerif.Proofs.ProcMacro"), ("XV.ProcMacro.pyStrip_infix", "XonshVerif.Proofs.ProcMacro"), ("XV.WithMacro.with_macro_lines_verbatim", "XonshVerif.Proofs.WithMacro"), ("XV.WithMacro.step_facts", "XonshVerif.Proofs.WithMacro"), ("XV.Macro.loop_partition", _PM), ("XV.Macro.param_is_concat", _PM), ("XV.Macro.concat_is_source_slice", _PM)],
     "C08": [("XV.Tz.token_starts_in_text", "XonshVerif.Properties.C11Tok"), ("XV.Tz.gaps_are_indentation_or_continuation", "XonshVerif.Properties.C08"), ("XV.Tz.between_consecutive_tokens", "XonshVerif.Properties.C08"), ("XV.Tz.after_the_last_token", "XonshVerif.Properties.C08"), ("XV.Tz.before_the_first_token", "XonshVerif.Properties.C08"), ("XV.Tz.Gap.chars", "XonshVerif.Proofs.TokGaps"), ("XV.Tz.tokenizeLines_g", "XonshVerif.Proofs.TokGaps"), ("XV.Rx.m_onlyChars", "XonshVerif.Proofs.RegexChars"),
             ("XV.Tz.all_tokens_are_source_slices", "XonshVerif.Properties.C08"), ("XV.Tz.fstring_tokens_are_source_slices", "XonshVerif.Properties.C08"), ("XV.Rx.m_endsWith", "XonshVerif.Proofs.RegexSuffix"), ("XV.Rx.m_fixedLen", "XonshVerif.Proofs.RegexSuffix"), ("XV.Tz.tokenizeLines_ft", "XonshVerif.Proofs.FstringText"),
             ("XV.Tz.tokens_in_position_order", "XonshVerif.Properties.C08"), ("XV.Tz.tokenizeLines_ord", "XonshVerif.Proofs.TokOrder"), ("XV.Tz.scanLine_ord", "XonshVerif.Proofs.TokOrder"),
@@ -390,6 +390,11 @@ def corr_helpers(pid, kinds):
                 if g:
                     srcs.append(g[0])
             srcs += ["if a:\n    pass\n\n\n", "def f():\n    return\n", "class A:\n    def f(self):\n        x = (1,\n 2)\n\n", "x = 1", "", "\n", "pass\n# c\n"]
+        if "procmacro" in kinds:
+            for _ in range(300 * n):
+                x, _cmd, _rest, _m = xonshgen.gen_proc_macro(r)
+                srcs.append(r.choice(["", "x = ", "print(", ""]) .replace("print(", "y = ") + x + "\n")
+            srcs += ["$(echo! a  b   c)\n", "![ls! -l  'x  y']\n", "$(echo!)\n", "$(echo! )\n", "r = !(bash! -c 'for i in x: pass')\n", "$[timeit! (a  b) c]\n", "$(echo! a\xa0b  c)\n", "$(echo! \u2003x )\n"]
         if "concat" in kinds:
             from harness.props import c10
 
@@ -443,7 +448,7 @@ def corr_getlines(pid):
 
 
 CORR = {
-    "C07": [corr_helpers("C07", ("macro", "withmacro"))],
+    "C07": [corr_helpers("C07", ("macro", "withmacro", "procmacro"))],
     "C11": [corr_helpers("C11", ("builderr",))],
     "C06": [corr_c06],
     "C01": [corr_peg("C01", xonsh=False), corr_helpers("C01", ("makeargs", "span", "concat"))],
